@@ -75,6 +75,32 @@ def modes(ctx, prog, T):
     except InsertionUnknown as e:
         ctx.unrecognised('S13.1', 'insert_back_prioritized', 'condition', 'a branch condition of the insertion procedure is not a function of the operator tables: %s' % e, span=f.span)
         return
+    # S13.5 juxtaposition: a value or a parenthesis group that follows a complete node whose last child is itself a value or a closed
+    # parenthesis group has no operator to attach it with; the procedure must answer `error` - it may neither sink the operand into the
+    # group/value (descend) nor adopt it (rotate) nor append it (push). (`1 2`, `(1) 2`, `(1 +) 2`, `(1)(2)`)
+    closed = [k for k in prec if leaf[k] or k == 'RootNode']
+    jux_bad = []
+    try:
+        for nn in sorted({m[0] for key, m in cls.items() if key[3] or key[4]}):       # leaf classes and the group
+            for s_ in reps:
+                if arity[s_] is None or arity[s_] == 0:
+                    continue
+                for l_ in sorted({m_ for m_ in reps if leaf[m_] or m_ == 'RootNode'}):
+                    for R in (False, True):
+                        outs = decide(dict(S=s_, L=l_, N=nn, R=R, sclen=arity[s_]))
+                        if outs == {'descend'} and leaf[l_]:
+                            # handing the operand down to a value is a rejection as well when the value rejects whatever arrives
+                            sub = set()
+                            for l2 in reps:
+                                sub |= decide(dict(S=l_, L=l2, N=nn, R=False, sclen=0))
+                            if sub == {'error'}:
+                                continue
+                        if outs != {'error'} and len(jux_bad) < 4:
+                            jux_bad.append('%s after a complete %s whose last child is %s%s: %s' % (nn, s_, l_, ' (insertion root)' if R else '', sorted(outs)))
+    except InsertionUnknown as e:
+        ctx.unrecognised('S13.5', 'insert_back_prioritized', 'condition', 'a branch condition of the insertion procedure is not a function of the operator tables: %s' % e, span=f.span)
+        return
+    ctx.check(not jux_bad, 'S13.5', 'juxtaposition', 'operand-after-operand', 'an operand (value or parenthesis group) that follows a complete node ending in a value or a closed group is rejected, not attached (deviations: %s)' % jux_bad, span=f.span)
     ctx.counters['insert_paths_enumerated'] = n_paths
     ctx.counters['insert_states_evaluated'] = n_states
     ctx.floor('S13.1', 'operator_kinds', len(op['variants']), 32)
